@@ -1,5 +1,7 @@
 import ArroyProofs.BQLemmas
 import ArroyProofs.F32Order
+import ArroyProofs.F32SqrtSq
+import ArroyProofs.F32DivRange
 /-! Helper lemmas for C12: the binary-quantised cosine distance as a function of the number of
 stored words and of `h`; bounded facts (up to 5 words = dimension 320) by kernel evaluation. -/
 namespace Arroy
@@ -52,55 +54,132 @@ theorem lt_of_neg_nonneg {x y : Nat} {m : Nat} {e : Int}
     rw [unpack_inf]
     simp [SF.ltV]
 
+/-- `(i as f32) / (D as f32)` for `|i| ≤ D < 2^62` is a number in `[-1, 1]` -/
+theorem ofInt_div_range (D : Nat) (hD0 : 0 < D) (hD : D < 2 ^ 62) (i : Int) (hi : i.natAbs ≤ D) :
+    SF.isNaN SF.f32 (F32.div (F32.ofInt i) (F32.ofNat D)) = false
+    ∧ SF.lt SF.f32 (F32.div (F32.ofInt i) (F32.ofNat D)) F32.negOne = false
+    ∧ SF.lt SF.f32 F32.one (F32.div (F32.ofInt i) (F32.ofNat D)) = false := by
+  obtain ⟨x1, x2⟩ := ofNat_field hD0 hD
+  have hxi := ofNat_le_inf D
+  rcases Nat.eq_zero_or_pos i.natAbs with hn | hn
+  · have : i = 0 := by omega
+    subst this
+    have : F32.ofInt 0 = F32.ofNat 0 := rfl
+    rw [this, zero_div_ofNat hD0]
+    exact range_of_le_one 0 (by omega)
+  · obtain ⟨a1, a2⟩ := ofNat_field hn (by omega)
+    have hax := ofNat_mono hi
+    have hc := div_le_one (F32.ofNat i.natAbs) (F32.ofNat D) hax a1 x2
+    by_cases hneg : i < 0
+    · have e : F32.ofInt i = SF.neg F32.fmt (F32.ofNat i.natAbs) := by
+        unfold F32.ofInt; rw [if_pos hneg]; rfl
+      rw [e]
+      obtain ⟨exf, frac, h1, h2⟩ := div_neg_shape (F32.ofNat i.natAbs) (F32.ofNat D) (by omega) (by omega)
+        (by omega) (by omega)
+      rw [h2]
+      rw [h1] at hc
+      apply range_of_neg_le_one _ _ hc
+      rw [SF.packBits_true]
+      exact SF.unpack_add_signW F32.fmt (Nat.le_of_ble_eq_true rfl) _
+    · have e : F32.ofInt i = F32.ofNat i.natAbs := by
+        unfold F32.ofInt; rw [if_neg hneg]; rfl
+      rw [e]
+      exact range_of_le_one _ hc
+
 end F32L
 
 namespace BQL
 open Generated
 
-/-- `BinaryQuantizedCosine::built_distance` for leaves of `wu` and `wv` words at Hamming distance `h`
-    (norms are `sqrt(dot(v, v)) = sqrt(64 w)`; no clamp, unlike the f32 cosine) -/
+/-- `BinaryQuantizedCosine::built_distance` (repaired) for leaves of `wu` and `wv` words at Hamming
+    distance `h`: the product of the norms is `sqrt(64 wu · 64 wv)`, computed from the lengths -/
 def cosineOf (wu wv h : Nat) : Nat :=
-  let pnqn := F32.mul (F32.sqrt (F32.ofNat (64 * wu))) (F32.sqrt (F32.ofNat (64 * wv)))
+  let pnqn := F32.sqrt (F32.mul (F32.ofNat (64 * wu)) (F32.ofNat (64 * wv)))
   let pq := F32.ofInt ((64 * min wu wv : Nat) - 2 * (h : Nat))
   if !(F32.eq pnqn F32.zero) then F32.div (F32.sub F32.one (F32.div pq pnqn)) F32.two else F32.zero
 
-theorem dot_self (v : List Nat) : BQ.dot v v = F32.ofNat (64 * v.length) := by
-  unfold BQ.dot
-  rw [hamming_self, Nat.min_self]
-  have : (((quantizedWordBits * v.length : Nat) : Int) - 2 * ((0 : Nat) : Int))
-      = ((64 * v.length : Nat) : Int) := by
-    show (((64 * v.length : Nat) : Int) - 2 * ((0 : Nat) : Int)) = _
-    omega
-  rw [this]
-  unfold F32.ofInt
-  have : ¬ (((64 * v.length : Nat) : Int) < 0) := by omega
-  rw [if_neg this, Int.natAbs_natCast]
-  rfl
+/-- the closed form once `sqrt(D·D) = D`: `(1 − (D − 2h)/D) / 2`, `D = 64 w` -/
+def cosineClosed (w h : Nat) : Nat :=
+  F32.div (F32.sub F32.one (F32.div (F32.ofInt ((64 * w : Nat) - 2 * (h : Nat))) (F32.ofNat (64 * w))))
+    F32.two
 
-theorem hdrNorm_newHeader (host : Host) (v : List Nat) :
-    Metric.hdrNorm .bqCosine (Metric.newHeader .bqCosine host v) = F32.sqrt (BQ.dot v v) := by
-  rfl
-
-theorem built_cosine (host : Host) (u v : List Nat) :
-    Metric.builtDistance .bqCosine host (Metric.newHeader .bqCosine host u) u
-      (Metric.newHeader .bqCosine host v) v = cosineOf u.length v.length (BQ.hamming u v) := by
-  simp only [Metric.builtDistance, hdrNorm_newHeader, dot_self, cosineOf]
+theorem built_cosine (host : Host) (ph qh u v : List Nat) :
+    Metric.builtDistance .bqCosine host ph u qh v = cosineOf u.length v.length (BQ.hamming u v) := by
+  simp only [Metric.builtDistance, cosineOf]
   rfl
 
 theorem cosineOf_comm (wu wv h : Nat) : cosineOf wu wv h = cosineOf wv wu h := by
   unfold cosineOf
   rw [F32L.mul_comm, Nat.min_comm]
 
-theorem cosineOf_self_zero (w : Nat) (hw : w ∈ [1, 3, 4, 5]) : cosineOf w w 0 = 0 := by
-  revert w; decide +kernel
+theorem cosineOf_zero_words (h : Nat) : cosineOf 0 0 h = 0 := by
+  have : F32.eq (F32.sqrt (F32.mul (F32.ofNat (64 * 0)) (F32.ofNat (64 * 0)))) F32.zero = true := by
+    decide +kernel
+  unfold cosineOf
+  simp only [this]
+  rfl
 
-theorem cosineOf_2_2_0 : cosineOf 2 2 0 = 0xb3800000 := by decide +kernel
+theorem ofNat_pos_eq_zero_false {n : Nat} (h : 0 < n) : F32.eq (F32.ofNat n) F32.zero = false := by
+  have h1 : F32.ofNat 1 = 0x3f800000 := by decide +kernel
+  have hpos : 0 < F32.ofNat n := by
+    have := F32L.ofNat_mono (a := 1) (b := n) h
+    omega
+  have hlt := F32L.lt_true_of_bits_lt (x := F32.zero) (y := F32.ofNat n) hpos (F32L.ofNat_le_inf n)
+  unfold F32.eq SF.eq
+  have : SF.le F32.fmt (F32.ofNat n) F32.zero = false := by
+    unfold SF.le
+    unfold F32.lt at hlt
+    simp [hlt]
+  simp [this]
 
-theorem cosineOf_exact (w h : Nat) (hw : w = 1 ∨ w = 4) (hb : h ≤ 64 * w) :
+/-- with `D = 64 w < 2^62` the norm product is exactly `D`, so the distance is `(1 − (D−2h)/D)/2` -/
+theorem cosineOf_closed (w h : Nat) (hw : 0 < w) (hb : 64 * w < 2 ^ 62) :
+    cosineOf w w h = cosineClosed w h := by
+  unfold cosineOf cosineClosed
+  simp only [F32L.sqrt_mul_ofNat _ hb, Nat.min_self,
+    ofNat_pos_eq_zero_false (show 0 < 64 * w by omega), Bool.not_false, if_true]
+
+/-- equal sign patterns: the distance is `+0.0`, for every number of words below `2^56` -/
+theorem cosineOf_self_zero (w : Nat) (hb : 64 * w < 2 ^ 62) : cosineOf w w 0 = 0 := by
+  rcases Nat.eq_zero_or_pos w with h | h
+  · subst h; exact cosineOf_zero_words 0
+  · rw [cosineOf_closed w 0 h hb]
+    unfold cosineClosed
+    have e1 : (((64 * w : Nat) : Int) - 2 * ((0 : Nat) : Int)) = ((64 * w : Nat) : Int) := by omega
+    have e2 : F32.ofInt ((64 * w : Nat) : Int) = F32.ofNat (64 * w) := by
+      unfold F32.ofInt
+      have : ¬ (((64 * w : Nat) : Int) < 0) := by omega
+      rw [if_neg this, Int.natAbs_natCast]; rfl
+    rw [e1, e2]
+    obtain ⟨a, b⟩ := F32L.ofNat_field (n := 64 * w) (by omega) hb
+    rw [F32L.div_self _ (by omega) (by omega)]
+    decide +kernel
+
+/-- the distance is a number in `[0, 1]` -/
+theorem cosineOf_range (w h : Nat) (hw : 0 < w) (hb : 64 * w < 2 ^ 62) (hh : h ≤ 64 * w) :
+    F32.le F32.zero (cosineOf w w h) = true ∧ F32.le (cosineOf w w h) F32.one = true := by
+  rw [cosineOf_closed w h hw hb]
+  obtain ⟨r1, r2, r3⟩ := F32L.ofInt_div_range (64 * w) (by omega) hb
+    (((64 * w : Nat) : Int) - 2 * ((h : Nat) : Int)) (by omega)
+  exact SF.le_of_small _ (SF.div_two_le _ (SF.one_sub_le _ r1 r2 r3))
+
+/-- The defect of the formula before the repair, as plain arithmetic: the product of the two stored
+    norms `sqrt(128) · sqrt(128)` is `0x42ffffff`, one ulp below `128.0 = 0x43000000`; hence
+    `cos = 128 / 127.99999 > 1` and the old distance `(1 − cos)/2` of a 65..128-dimensional vector
+    to itself was `0xb3800000 = −5.9604645e−8`: non-zero and negative. -/
+theorem old_formula_defect :
+    F32.mul (F32.sqrt (F32.ofNat 128)) (F32.sqrt (F32.ofNat 128)) = 0x42ffffff
+    ∧ F32.ofNat 128 = 0x43000000
+    ∧ F32.div (F32.sub F32.one (F32.div (F32.ofNat 128)
+        (F32.mul (F32.sqrt (F32.ofNat 128)) (F32.sqrt (F32.ofNat 128))))) F32.two = 0xb3800000
+    ∧ F32.lt 0xb3800000 F32.zero = true := by
+  decide +kernel
+
+theorem cosineOf_exact (w h : Nat) (hw : w = 1 ∨ w = 2 ∨ w = 4) (hb : h ≤ 64 * w) :
     cosineOf w w h = F32.div (F32.ofNat h) (F32.ofNat (64 * w)) := by
-  have key : ∀ w ∈ [1, 4], ∀ h ∈ List.range (64 * w + 1),
+  have key : ∀ w ∈ [1, 2, 4], ∀ h ∈ List.range (64 * w + 1),
       cosineOf w w h = F32.div (F32.ofNat h) (F32.ofNat (64 * w)) := by decide +kernel
-  exact key w (by rcases hw with rfl | rfl <;> simp) h (List.mem_range.mpr (by omega))
+  exact key w (by rcases hw with rfl | rfl | rfl <;> simp) h (List.mem_range.mpr (by omega))
 
 /-- `f s < f (s+1) < … < f (s+k)` -/
 def incrF (f : Nat → Nat) : Nat → Nat → Bool
@@ -124,45 +203,30 @@ theorem incrF_spec (f : Nat → Nat) : ∀ k s, incrF f s k = true →
       · exact Nat.lt_trans h0 (ih' (s + 1) j (Nat.le_refl _) hlt (by omega))
       · rw [← heq]; exact h0
 
-theorem cos_chain_a : ∀ w ∈ [1, 3, 4, 5], incrF (cosineOf w w) 0 (64 * w) = true := by
+theorem cos_chain : ∀ w ∈ [1, 2, 3, 4, 5], incrF (cosineOf w w) 0 (64 * w) = true := by
   decide +kernel
-
-theorem cos_chain_b : incrF (cosineOf 2 2) 1 127 = true := by decide +kernel
 
 theorem cos_top : ∀ w ∈ [1, 2, 3, 4, 5], cosineOf w w (64 * w) ≤ 0x7f800000 := by
   decide +kernel
 
-/-- strictly increasing in `h`, up to five words -/
-theorem cosineOf_strict_mono (w h1 h2 : Nat) (hw : 1 ≤ w ∧ w ≤ 5) (h : h1 < h2)
-    (hb : h2 ≤ 64 * w) : F32.lt (cosineOf w w h1) (cosineOf w w h2) = true := by
+/-- strictly increasing in `h` (as bit patterns, all non-negative), up to five words -/
+theorem cosineOf_chain (w h1 h2 : Nat) (hw : 1 ≤ w ∧ w ≤ 5) (h : h1 < h2) (hb : h2 ≤ 64 * w) :
+    cosineOf w w h1 < cosineOf w w h2 ∧ cosineOf w w h2 ≤ 0x7f800000 := by
   have hmem : w ∈ [1, 2, 3, 4, 5] := by
     have : w = 1 ∨ w = 2 ∨ w = 3 ∨ w = 4 ∨ w = 5 := by omega
     simpa using this
   have htop := cos_top w hmem
-  by_cases h2w : w = 2
-  · subst h2w
-    have chain := incrF_spec (cosineOf 2 2) 127 1 cos_chain_b
-    have htop : cosineOf 2 2 128 ≤ 0x7f800000 := htop
-    have hle : cosineOf 2 2 h2 ≤ 0x7f800000 := by
-      rcases Nat.lt_or_eq_of_le hb with hlt | heq
-      · have := chain h2 128 (by omega) hlt (by omega)
-        omega
-      · rw [heq]; exact htop
-    rcases Nat.eq_zero_or_pos h1 with h0 | hpos
-    · subst h0
-      rw [cosineOf_2_2_0]
-      exact F32L.lt_of_neg_nonneg (m := 8388608) (e := -47) (by rfl) (by decide) hle
-    · exact F32L.lt_true_of_bits_lt (chain h1 h2 hpos h (by omega)) hle
-  · have hmem' : w ∈ [1, 3, 4, 5] := by
-      have : w = 1 ∨ w = 3 ∨ w = 4 ∨ w = 5 := by omega
-      simpa using this
-    have chain := incrF_spec (cosineOf w w) (64 * w) 0 (cos_chain_a w hmem')
-    have hle : cosineOf w w h2 ≤ 0x7f800000 := by
-      rcases Nat.lt_or_eq_of_le hb with hlt | heq
-      · have := chain h2 (64 * w) (by omega) hlt (by omega)
-        omega
-      · rw [heq]; exact htop
-    exact F32L.lt_true_of_bits_lt (chain h1 h2 (by omega) h (by omega)) hle
+  have chain := incrF_spec (cosineOf w w) (64 * w) 0 (cos_chain w hmem)
+  refine ⟨chain h1 h2 (by omega) h (by omega), ?_⟩
+  rcases Nat.lt_or_eq_of_le hb with hlt | heq
+  · have := chain h2 (64 * w) (by omega) hlt (by omega)
+    omega
+  · rw [heq]; exact htop
+
+theorem cosineOf_strict_mono (w h1 h2 : Nat) (hw : 1 ≤ w ∧ w ≤ 5) (h : h1 < h2)
+    (hb : h2 ≤ 64 * w) : F32.lt (cosineOf w w h1) (cosineOf w w h2) = true := by
+  obtain ⟨a, b⟩ := cosineOf_chain w h1 h2 hw h hb
+  exact F32L.lt_true_of_bits_lt a b
 
 end BQL
 end Arroy
